@@ -1,0 +1,36 @@
+//go:build verif
+
+package executors
+
+import (
+	"sync/atomic"
+	"time"
+
+	"github.com/gotid/god/lib/timex"
+)
+
+// Verification hooks (build tag verif): let drivers of the packages that USE a
+// PeriodicalExecutor (sqlx.BulkInserter, stat.Metrics) control its ticker and
+// observe its container, as the in-package driver of lib/executors does.
+
+// VerifSetNewTicker replaces the ticker factory used when a background flusher starts.
+func VerifSetNewTicker(pe *PeriodicalExecutor, f func(d time.Duration) timex.Ticker) {
+	pe.lock.Lock()
+	pe.newTicker = f
+	pe.lock.Unlock()
+}
+
+// VerifWrapContainer replaces pe's container by wrap(container).
+func VerifWrapContainer(pe *PeriodicalExecutor, wrap func(TaskContainer) TaskContainer) {
+	pe.lock.Lock()
+	pe.container = wrap(pe.container)
+	pe.lock.Unlock()
+}
+
+// VerifPending reports pe.inflight, len(pe.commander) and pe.guarded.
+func VerifPending(pe *PeriodicalExecutor) (inflight, queued int, guarded bool) {
+	pe.lock.Lock()
+	guarded = pe.guarded
+	pe.lock.Unlock()
+	return int(atomic.LoadInt32(&pe.inflight)), len(pe.commander), guarded
+}
